@@ -6,6 +6,8 @@
 import Shm.Lemmas.NoOk
 import Shm.Model.Step
 import Shm.Lemmas.StepInv
+import Shm.Model.Wrap
+import Shm.Props.C07
 namespace Shm.C02
 open Shm
 
@@ -147,5 +149,92 @@ example :
     errOf (saveTemplate Gen.cls_SECRET_AES (setA (initAttrs Gen.cls_SECRET_AES) CKA.SENSITIVE (.bool true))
       [⟨CKA.EXTRACTABLE, some [1], 1, none⟩] OP.SET false false 0) = some CKR.ATTRIBUTE_READ_ONLY := by
   decide +kernel
+
+theorem getBoolD_setA_same (o : Attrs) (t : Nat) (b d : Bool) : getBoolD (setA o t (.bool b)) t d = b := by
+  simp [getBoolD, getA_setA_same]
+
+theorem getBoolD_setA_other (o : Attrs) (t t' : Nat) (v : AVal) (d : Bool) (hne : t' ≠ t) : getBoolD (setA o t v) t' d = getBoolD o t' d := by
+  simp [getBoolD, getA_setA_other _ _ _ _ hne]
+
+/-- **the concatenation mechanisms hand the protection on** (`deriveFlags`, the model of the CKM_CONCATENATE_* branch of SoftHSM::deriveSymmetric, which the derive matrix K02 compares
+    with the library): a key derived from a SENSITIVE base key is sensitive, from an UNEXTRACTABLE base key unextractable - whatever the template asked for; with
+    CKM_CONCATENATE_BASE_AND_KEY the same holds for the second key -/
+theorem getBoolD_false_of_default_true (o : Attrs) (t : Nat) (h : getBoolD o t true = false) : getBoolD o t false = false := by
+  unfold getBoolD at *
+  split at h <;> simp_all
+
+theorem C02_concat_inherits (mech : Nat) (base a : Attrs) (other : Option Attrs) (d : Bool)
+    (hm : mech = CKM.CONCATENATE_BASE_AND_DATA ∨ mech = CKM.CONCATENATE_DATA_AND_BASE ∨ (mech = CKM.CONCATENATE_BASE_AND_KEY ∧ other.isSome)) :
+    (getBoolD base CKA.SENSITIVE true = true → getBoolD (deriveFlags mech base other a) CKA.SENSITIVE d = true) ∧
+    (getBoolD base CKA.EXTRACTABLE true = false → getBoolD (deriveFlags mech base other a) CKA.EXTRACTABLE d = false) ∧
+    (∀ ok, mech = CKM.CONCATENATE_BASE_AND_KEY → other = some ok →
+      (getBoolD ok CKA.SENSITIVE true = true → getBoolD (deriveFlags mech base other a) CKA.SENSITIVE d = true) ∧
+      (getBoolD ok CKA.EXTRACTABLE true = false → getBoolD (deriveFlags mech base other a) CKA.EXTRACTABLE d = false)) := by
+  have hAS : CKA.SENSITIVE ≠ CKA.ALWAYS_SENSITIVE := by decide
+  have hNS : CKA.SENSITIVE ≠ CKA.NEVER_EXTRACTABLE := by decide
+  have hAE : CKA.EXTRACTABLE ≠ CKA.ALWAYS_SENSITIVE := by decide
+  have hNE : CKA.EXTRACTABLE ≠ CKA.NEVER_EXTRACTABLE := by decide
+  have hSE : CKA.SENSITIVE ≠ CKA.EXTRACTABLE := by decide
+  have hES : CKA.EXTRACTABLE ≠ CKA.SENSITIVE := by decide
+  rcases hm with hm | hm | ⟨hm, ho⟩
+  all_goals subst hm
+  · refine ⟨?_, ?_, ?_⟩
+    · intro hs
+      simp [deriveFlags, CKM.CONCATENATE_BASE_AND_KEY, CKM.CONCATENATE_BASE_AND_DATA, hs, getBoolD_setA_other _ _ _ _ _ hNS, getBoolD_setA_other _ _ _ _ _ hAS]
+      split <;> simp [getBoolD_setA_other _ _ _ _ _ hSE, getBoolD_setA_same]
+    · intro he0
+      have he := getBoolD_false_of_default_true _ _ he0
+      simp [deriveFlags, CKM.CONCATENATE_BASE_AND_KEY, CKM.CONCATENATE_BASE_AND_DATA, he, getBoolD_setA_other _ _ _ _ _ hNE, getBoolD_setA_other _ _ _ _ _ hAE, getBoolD_setA_same]
+    · intro ok h; exact absurd h (by decide)
+  · refine ⟨?_, ?_, ?_⟩
+    · intro hs
+      simp [deriveFlags, CKM.CONCATENATE_BASE_AND_KEY, CKM.CONCATENATE_BASE_AND_DATA, CKM.CONCATENATE_DATA_AND_BASE, hs, getBoolD_setA_other _ _ _ _ _ hNS, getBoolD_setA_other _ _ _ _ _ hAS]
+      split <;> simp [getBoolD_setA_other _ _ _ _ _ hSE, getBoolD_setA_same]
+    · intro he0
+      have he := getBoolD_false_of_default_true _ _ he0
+      simp [deriveFlags, CKM.CONCATENATE_BASE_AND_KEY, CKM.CONCATENATE_BASE_AND_DATA, CKM.CONCATENATE_DATA_AND_BASE, he, getBoolD_setA_other _ _ _ _ _ hNE, getBoolD_setA_other _ _ _ _ _ hAE, getBoolD_setA_same]
+    · intro ok h; exact absurd h (by decide)
+  · obtain ⟨ok, rfl⟩ := Option.isSome_iff_exists.mp ho
+    have key : ∀ (cs ce : Bool), True := fun _ _ => trivial
+    refine ⟨?_, ?_, ?_⟩
+    · intro hs
+      simp only [deriveFlags, if_true, beq_self_eq_true, hs, Bool.true_or]
+      rw [getBoolD_setA_other _ _ _ _ _ hNS, getBoolD_setA_other _ _ _ _ _ hAS]
+      split <;> simp [getBoolD_setA_other _ _ _ _ _ hSE, getBoolD_setA_same]
+    · intro he
+      simp only [deriveFlags, if_true, beq_self_eq_true, he, Bool.false_and, Bool.not_false]
+      rw [getBoolD_setA_other _ _ _ _ _ hNE, getBoolD_setA_other _ _ _ _ _ hAE]
+      simp [getBoolD_setA_same]
+    · intro ok2 _ hoo
+      cases hoo
+      constructor
+      · intro hs
+        simp only [deriveFlags, if_true, beq_self_eq_true, hs, Bool.or_true]
+        rw [getBoolD_setA_other _ _ _ _ _ hNS, getBoolD_setA_other _ _ _ _ _ hAS]
+        split <;> simp [getBoolD_setA_other _ _ _ _ _ hSE, getBoolD_setA_same]
+      · intro he
+        simp only [deriveFlags, if_true, beq_self_eq_true, he, Bool.and_false, Bool.not_false]
+        rw [getBoolD_setA_other _ _ _ _ _ hNE, getBoolD_setA_other _ _ _ _ _ hAE]
+        simp [getBoolD_setA_same]
+
+/-- non-vacuity: a sensitive, extractable second key makes the concatenation sensitive -/
+example : getBoolD (deriveFlags CKM.CONCATENATE_BASE_AND_KEY [(CKA.SENSITIVE, .bool false), (CKA.EXTRACTABLE, .bool true)] (some [(CKA.SENSITIVE, .bool true), (CKA.EXTRACTABLE, .bool true)]) []) CKA.SENSITIVE false = true := by decide
+
+/-- **a key with CKA_EXTRACTABLE false is never wrapped; a key with CKA_WRAP_WITH_TRUSTED only under a CKA_TRUSTED key** - for every state, every mechanism, every pair of
+    handles: whenever the model's C_WrapKey answers CKR_OK, the wrapped key was extractable and, if it demands a trusted wrapping key, got one (corollary of the ONLY-IF
+    theorem of C07; the wrap matrix K02 compares all 256 cells with the library) -/
+theorem C02_wrap_rules (s : State) (h mech : Nat) (p : MParam) (wkH keyH : Nat) (cap : Option Nat) (oRv : RV) (oLen : Nat) (oData : Option Bytes)
+    (e2 : ObjH) (key : Obj) (hkey : resolveObj s keyH = some (e2, key))
+    (hprot : getBoolD key.attrs CKA.EXTRACTABLE false = false ∨
+             (getBoolD key.attrs 0x210 false = true ∧ ∀ e1 wk, resolveObj s wkH = some (e1, wk) → getBoolD wk.attrs CKA.TRUSTED false = false)) :
+    (stepWrap s h mech p wkH keyH cap oRv oLen oData).2.rv ≠ CKR.OK := by
+  intro hok
+  obtain ⟨e1, wk, e2', key', hwk, hk', _, _, hext, htr⟩ := Shm.C07.C07_wrap_only_if s h mech p wkH keyH cap oRv oLen oData hok
+  rw [hkey] at hk'
+  cases hk'
+  rcases hprot with hne | ⟨hwwt, hun⟩
+  · rw [hne] at hext; exact absurd hext (by decide)
+  · have := htr hwwt
+    rw [hun e1 wk hwk] at this; exact absurd this (by decide)
 
 end Shm.C02
